@@ -259,8 +259,15 @@ def _grammar_accepts(s: str) -> bool:
         return False
 
 
+# C19 states "a returned value can be printed" (str() does not raise) — that the printed text of a marker is READ BACK by
+# parse_marker is C13's clause, judged there (stream `literal-shapes`, class empty-literal-misread).  The re-read test of
+# this plug-in found the defects behind repo fixes 3046ca3 / 7b51c5a; it stays as a counter (`marker:ok:reprint-rejected`)
+# and is not a C19 verdict.
+REPRINT_IS_VIOLATION = False
+
+
 def violation_of(target: str, s: str, label: str, o: dict[str, Any]) -> tuple[str, str, dict[str, Any]] | None:
-    if o["cls"] == "ok" and target == "marker" and o.get("reprint_rejected"):
+    if o["cls"] == "ok" and target == "marker" and o.get("reprint_rejected") and REPRINT_IS_VIOLATION:
         return (f"marker:reprint-rejected:{_literal_cause(s)}",
                 f"parse_marker({_short(s)}) returns a marker whose printed text {_short(o['text'])} parse_marker rejects "
                 f"({o['reprint_rejected']}): the value cannot be printed", {"parser": target, "s": s, "label": label})
@@ -392,6 +399,8 @@ def run_cases(grammar: str, cases: list[tuple[str, str]], want_model: bool = Tru
                 cnt(f"slow:{t}:{label}")
             cnt(f"{t}:" + (o["cls"] if o["cls"] != "other" else "other:" + o["etype"]) + (":" + o["err"] if o["cls"] == "doc" else ""))
             any_ok = any_ok or o["cls"] == "ok"
+            if o["cls"] == "ok" and o.get("reprint_rejected"):
+                cnt(f"{t}:ok:reprint-rejected:{_literal_cause(s)}")
             # `mraw` (the un-simplified tree) is the harness's own entry point for the correspondence: not judged
             v = violation_of(t, s, label, o) if t != "mraw" else None
             if v is not None and not any(x[0] == v[0] for x in res["violations"]):
